@@ -853,6 +853,18 @@ def check(pid, tier, seed):
             exhaustive_parts.append({"what": r.get("variant"),
                                      "sequences": r.get("evaluations"),
                                      "complete": r.get("exhaustive", False)})
+    def rerun_traced(w):
+        exe_, wargs, env, log = jobs[w]
+        trace = os.path.join(scratch, "w%d.trace.json" % w)
+        return subprocess.run([exe_] + wargs + ["--trace", trace], env=env,
+                              stdout=subprocess.DEVNULL,
+                              stderr=subprocess.DEVNULL).returncode
+    died = [w for w in crashed if w < nworkers]
+    rerun_rc = {}
+    if died:
+        with cf.ThreadPoolExecutor(max_workers=min(len(died), NCPU)) as ex3:
+            rerun_rc = dict(zip(died, ex3.map(rerun_traced, died)))
+    not_reproduced = 0
     for w in crashed:
         if w >= nworkers:
             failures.append({"property": pid, "case": None,
@@ -860,8 +872,13 @@ def check(pid, tier, seed):
             continue
         exe_, wargs, env, log = jobs[w]
         trace = os.path.join(scratch, "w%d.trace.json" % w)
-        subprocess.run([exe_] + wargs + ["--trace", trace], env=env,
-                       stdout=subprocess.DEVNULL, stderr=subprocess.DEVNULL)
+        if rerun_rc.get(w) == 0:
+            # the same worker with the same seed now runs to the end without
+            # a failure: it was killed from outside (memory pressure, a
+            # signal), which says nothing about the property
+            not_reproduced += 1
+            total["inconclusive"] += 1
+            continue
         if os.path.exists(trace) and os.path.getsize(trace) > 0:
             with open(trace) as f:
                 case = json.load(f)
@@ -980,6 +997,7 @@ def check(pid, tier, seed):
             "inconclusive": total["inconclusive"],
             "replayed_regressions": replayed,
             "unconfirmed_failures": unconfirmed,
+            "workers_killed_not_reproduced": not_reproduced,
             "workers": nworkers,
             "job_groups": [dict(engine=g["engine"], workers=g["workers"],
                                 cases_per_worker=g["cases"],
